@@ -58,6 +58,23 @@ CLAIMED["C05"] = dict(
     technique="runtime monitoring: GC-stress hook + heap-walk invariant hook + AddressSanitizer + schedule-differential outcomes",
 )
 
+CLAIMED["C11"] = dict(
+    category="exploration",
+    text="A family of 40 Rust types (integers, floats, u8, bool, char, String, unit, Option / Result / Vec / tuple / "
+         "BTreeMap<String,_> nestings, derived structs P and Q, derived enum E and containers of them) with boundary "
+         "and random values; routes per value: Pushable then Getable; through the Gluon function `\\x -> x` at "
+         "fn(T) -> T; a Gluon observer generated from the type folding the value into an Int fingerprint that must "
+         "equal the Rust fingerprint; the serde bridge (Ser must build the same graph shape as Pushable, then De must "
+         "read it back, then the observer must see it). Floats compared bitwise. Mismatch matrix: a global of every "
+         "type requested at every other type of the family must be refused unless both have the same Gluon type (a "
+         "panic counts as granted). ASan phase over the same values.",
+    design_ref="DESIGN.md §4 C11",
+    note="Findings: F54 (Ser is untyped: Vec -> tuple-shaped data, Option flattened, char -> String, u8 -> Int, Result "
+         "variant order, map -> record) and F55 (De cannot read tuples) are listed; the Pushable/Getable routes and the "
+         "mismatch matrix (1556 mismatching requests refused) hold.",
+    technique="runtime monitoring: round-trip and cross-language fingerprint oracles over a typed value family, exhaustive type-mismatch matrix, ASan",
+)
+
 CLAIMED["C12"] = dict(
     category="translation_validation",
     text="Each generated program is run from source and from its serialised bytecode (same VM, fresh VM with its imports "
